@@ -1,5 +1,6 @@
 import Toq.Driver.QJson
 import Toq.Model.ChannelProps
+import Toq.Model.ChannelPropsTol
 /-! Driver handlers for C06: exact deciders of the channel predicates and closed forms of the built-in channels.
 
 Exact matrices over `ℚ[i]`: `{"r":rows,"c":cols,"den":D,"re":[…],"im":[…]}` (row-major integer numerators over the
@@ -9,6 +10,8 @@ common denominator `D`; `"im"` may be omitted).  Rationals `[num, den]` or an in
 * `c06_decide {"form":"kraus","phi":kraus}` / `{"form":"choi","di":..,"do":..,"J":mat}`, optional `"L"` (factor with
   `J - L Lᴴ` diagonally dominant) and `"v"` (column vector with `vᴴ J v < 0`):
   → `{"di","do","hp","psd","tp","unital","unitary":"yes|no|unknown","rank":n,"extremal":bool, …}`
+* `c06_close {…same map arguments…, "rtol":rat, "atol":rat[, "L":mat, "c":rat][, "v":mat, "mu":rat]}`
+  → `{"hp","tp","unital"[,"tp_pairs"]: bool, "psd":"yes|no|unknown"}` — the exact mirrors of the tolerance tests
 * `c06_unitary_mat {"U":mat}` → `{"unitary":bool}`
 * `c06_depolarizing {"d","p"[,"X"]}`, `c06_dephasing {"d","p"[,"X"]}`, `c06_reduction {"d","k"[,"X"]}`, `c06_choi {"a","b","c"[,"X"]}`
   → `{"J":mat[,"out":mat,"via_choi":mat]}`
@@ -108,6 +111,58 @@ def hDecide : Handler := fun j => do
     return Json.mkObj ([("di", Json.num c.di), ("do", Json.num c.dO), ("hp", Json.str rep.hp.str),
       ("psd", Json.str rep.psd.str), ("tp", Json.str rep.tp.str), ("unital", Json.str rep.unital.str),
       ("unitary", Json.str rep.unitary.str), ("rank", Json.num rep.rank), ("extremal", Json.bool rep.extremal)] ++ extra)
+
+/-- the map of a request in canonical form (`form` = `"kraus"` with `phi`, or `"choi"` with `di`, `do`, `J`) -/
+def getChoiForm (j : Json) : Except String (Option ChoiForm) := do
+  let form ← (← j.getObjVal? "form").getStr?
+  if form == "kraus" then do
+    let phi ← parseKraus (← j.getObjVal? "phi")
+    pure (choiOfArg phi)
+  else do
+    let di ← getNat j "di"
+    let dO ← getNat j "do"
+    let J ← parseQMat (← j.getObjVal? "J")
+    if J.r != di * dO || J.c != di * dO then pure none
+    else pure (some ⟨di, dO, emOfMat _ _ J⟩)
+
+/-- `c06_close`: the exact mirrors of the tolerance tests for given `rtol`, `atol` (rationals `≥ 0`):
+    `hp` = `np.allclose(J, Jᴴ)`, `tp` = `is_identity(Tr_out J)`, `unital` = `is_identity(Tr_in J)`, for paired lists also
+    `tp_pairs` = `is_identity(Σ AᴴB)`; `psd` = the eigenvalue test through certificates (`L` with shift `c`, or `v` with `mu`) -/
+def hClose : Handler := fun j => do
+  let rtol ← getRat j "rtol"
+  let atol ← getRat j "atol"
+  if rtol < 0 || atol < 0 then return reject "NegativeTolerance"
+  let form ← (← j.getObjVal? "form").getStr?
+  let mut extra : List (String × Json) := []
+  if form == "kraus" then
+    let phi ← parseKraus (← j.getObjVal? "phi")
+    match phi.split with
+    | some (as, bs) =>
+      match as with
+      | a :: _ => extra := [("tp_pairs", Json.bool (tpPairsClose rtol atol as bs a.c))]
+      | [] => pure ()
+    | none => pure ()
+  match ← getChoiForm j with
+  | none => return reject "Shape"
+  | some c =>
+    let N := c.di * c.dO
+    let L ← optQMat j "L"
+    let v ← optQMat j "v"
+    let cs : Rat ← if isNull j "c" then pure 0 else getRat j "c"
+    let mu : Rat ← if isNull j "mu" then pure 0 else getRat j "mu"
+    let vE : Option (EMat N 1) ←
+      match v with
+      | some v => if v.r != N || v.c != 1 then throw "v: shape" else pure (some (emOfMat N 1 v))
+      | none => pure none
+    let psd : Verdict ←
+      match L with
+      | some L =>
+        if L.r != N then throw "L: shape"
+        else pure (psdTolV rtol atol c.J (some (emOfMat N L.c L)) cs vE mu)
+      | none => pure (psdTolV (k := 0) rtol atol c.J none cs vE mu)
+    return Json.mkObj ([("di", Json.num c.di), ("do", Json.num c.dO), ("hp", Json.bool (hpClose rtol atol c.J)),
+      ("tp", Json.bool (tpClose rtol atol c.J)), ("unital", Json.bool (unitalClose rtol atol c.J)),
+      ("psd", Json.str psd.str)] ++ extra)
 
 def hUnitaryMat : Handler := fun j => do
   let U ← parseQMat (← j.getObjVal? "U")
@@ -264,7 +319,7 @@ def hPauli : Handler := fun j => do
   | g => return reject g.name
 
 def handlers : List (String × Handler) :=
-  [("c06_decide", hDecide), ("c06_unitary_mat", hUnitaryMat),
+  [("c06_decide", hDecide), ("c06_close", hClose), ("c06_unitary_mat", hUnitaryMat),
    ("c06_depolarizing", hDepolarizing), ("c06_dephasing", hDephasing), ("c06_reduction", hReduction),
    ("c06_choi", hChoiMap), ("c06_ad", hAmplitudeDamping), ("c06_pd", hPhaseDamping), ("c06_bitflip", hBitflip),
    ("c06_pauli", hPauli)]
